@@ -43,3 +43,5 @@ Example C12_nonvacuous :
   exists q tr, optimize (W_ex_t) (4 * w (PXor (PAnd (PNamed "a") (PNamed "b")) (POr (PNamed "c") (PNamed "a"))) + 3)
                  (PXor (PAnd (PNamed "a") (PNamed "b")) (POr (PNamed "c") (PNamed "a"))) = Ok q tr.
 Proof. eexists. eexists. vm_compute. reflexivity. Qed.
+
+Print Assumptions C12_nonvacuous.
